@@ -14,9 +14,9 @@ every fuel and recursion stack).  That development is relative to a leaf specifi
 `LeafSpec ev G` (marker equality and leaf merging respect the leaf truth `ev` on leaves satisfying the
 invariant `G`; the concrete instance for `leafEval E` is C06/C07's subject) — the theorems below take the
 same `S : LeafSpec ev G` and `M.Good G m`, so they compose with C07 without further hypotheses.  The last section
-(`only_mentions`, `reduce_exact_validate`) instantiates everything on `FullLeafLs E` — plain string variables, `extra`,
-`python_version op "a.b"`, `python_full_version op "a.b.c"` with comparison operators or `~=`, `python_version` lists — where the leaf
-specification, the python_version / python_full_version pairing included (`pairSound_pyC`, `pairSound_pyLists`), C11's exactness,
+(`only_mentions`, `reduce_exact_validate`) instantiates everything on `FullLeafLLs E` — plain string variables, `extra`,
+`python_version op "a.b"`, `python_full_version op "a.b.c"` with comparison operators or `~=`, `in` / `not in` lists on both python variables — where the leaf
+specification, the python_version / python_full_version pairing included (`pairSound_pyC`, `pairSound_pyLists`, `pairSound_pyLL`), C11's exactness,
 `create_nested_marker` through `parse_marker` and C12's two answers are all proved: no hypothesis is left there
 beyond the description of the environment and of the project's range.  The `…_partial` theorems keep the general
 form (any invariant `G` with a leaf specification `S`); the statements without domain are kept as
@@ -25,7 +25,7 @@ form (any invariant `G` with a leaf specification `S`); the statements without d
 import PoetryVerif.Proofs.MarkerProjReduce
 import PoetryVerif.Proofs.PyConvReduce
 import PoetryVerif.Proofs.MarkerAlgSoundOps
-import PoetryVerif.Proofs.PyConvFullLists
+import PoetryVerif.Proofs.PyConvFullLL
 import PoetryVerif.Proofs.PyConvNamed
 
 set_option linter.unusedSimpArgs false
@@ -194,25 +194,25 @@ def C17_reduce_exact_full_statement : Prop :=
 
 /-! ## against poetry's own `validate`, no leaf-level hypothesis
 
-On `FullLeafLs E` (plain string variables, `extra`, `python_version op "a.b"`, `python_full_version op "a.b.c"` with
-comparison operators or `~=`, `python_version in / not in` lists; C07's leaf specification holds there outright, the python_version / python_full_version
-pairing included: `pairSound_pyC`, `pairSound_pyLists`), for an environment of interpreter `X.Y.Z` with a set of active extras. -/
+On `FullLeafLLs E` (plain string variables, `extra`, `python_version op "a.b"`, `python_full_version op "a.b.c"` with
+comparison operators or `~=`, `in / not in` lists on `python_version` and `python_full_version`; C07's leaf specification holds there outright, the python_version / python_full_version
+pairing included: `pairSound_pyC`, `pairSound_pyLists`, `pairSound_pyLL`), for an environment of interpreter `X.Y.Z` with a set of active extras. -/
 
 /-- **`only` mentions only the requested variables.** -/
 theorem only_mentions {E : Env} {ex : List String} (hX : E.extras = some ex) {X Y Z : Nat} (hE : EnvPy E X Y Z)
-    (names : List String) (m r : M) (hg : M.Good (FullLeafLs E) m) (h : m.only names = .ok r) :
+    (names : List String) (m r : M) (hg : M.Good (FullLeafLLs E) m) (h : m.only names = .ok r) :
     ∀ n ∈ M.vars r, n ∈ names :=
-  only_mentions_fullLs hX hE names m r hg h
+  only_mentions_fullLLs hX hE names m r hg h
 
 /-- **reduction by a Python range is exact**: for a range of C11's domain with bounds of two or three components
 that is a well-formed constraint and admits the interpreter, the reduced marker stays in the domain and validates
 to the same value as the original. -/
 theorem reduce_exact_validate {E : Env} {ex : List String} (hX : E.extras = some ex) {X Y Z : Nat}
     (hE : EnvPy E X Y Z) (pc : VC) (hd : PyDomVC pc = true) (hp2 : PyPrec2 pc) (hpcok : PyVCok pc)
-    (hpc : pc.allowsPlain (pyV X Y Z) = true) (m r : M) (hg : M.Good (FullLeafLs E) m)
+    (hpc : pc.allowsPlain (pyV X Y Z) = true) (m r : M) (hg : M.Good (FullLeafLLs E) m)
     (h : M.reduce pc m = .ok r) :
-    M.Good (FullLeafLs E) r ∧ M.validate E r = M.validate E m :=
-  reduce_exact_validate_fullLs hX hE pc hd hp2 hpcok hpc m r hg h
+    M.Good (FullLeafLLs E) r ∧ M.validate E r = M.validate E m :=
+  reduce_exact_validate_fullLLs hX hE pc hd hp2 hpcok hpc m r hg h
 
 /-- the hypotheses on the range are satisfiable: `>=3.8,<3.11` -/
 example : PyPrec2 (.single (.rng ⟨some (finalV [3, 8]), some (finalV [3, 11]), true, false⟩)) := by
@@ -225,13 +225,13 @@ example : PyPrec2 (.single (.rng ⟨some (finalV [3, 8]), some (finalV [3, 11]),
 /-- **`only` only weakens**, through `validate`: the projection stays in the domain, and validates to true wherever
 the marker does. -/
 theorem only_weakens_validate {E : Env} {ex : List String} (hX : E.extras = some ex) {X Y Z : Nat}
-    (hE : EnvPy E X Y Z) (names : List String) (m r : M) (hg : M.Good (FullLeafLs E) m)
+    (hE : EnvPy E X Y Z) (names : List String) (m r : M) (hg : M.Good (FullLeafLLs E) m)
     (h : M.only names m = .ok r) (hm : M.validate E m = .ok true) :
-    M.Good (FullLeafLs E) r ∧ M.validate E r = .ok true := by
-  have S := leafSpec_fullLs hX hE
+    M.Good (FullLeafLLs E) r ∧ M.validate E r = .ok true := by
+  have S := leafSpec_fullLLs hX hE
   have hr := only_weakens S names m r hg h
-  have hev : ∀ x, M.Good (FullLeafLs E) x → M.Evaluable E x := fun x hx =>
-    M.good_mono (fun l hl => fullLeafLs_evaluable hX hE hl) x hx
+  have hev : ∀ x, M.Good (FullLeafLLs E) x → M.Evaluable E x := fun x hx =>
+    M.good_mono (fun l hl => fullLeafLLs_evaluable hX hE hl) x hx
   exact ⟨hr.1, only_weakens_validate_partial E S names m r hg h (hev m hg) (hev r hr.1) hm⟩
 
 /-- **the text back-conversion of `_merge_python_version_single_markers` keeps two-digit components** (what an
